@@ -358,6 +358,7 @@ func (g *cssSheetGen) prelude(kind string) []CSSTok {
 		t                  CSSTok
 		punct, open, close bool
 		fn                 bool // a function token: not punctuation, whitespace behind it separates it from the first argument
+		tight              bool // written without whitespace on either side
 	}
 	var toks []pt
 	switch kind {
@@ -401,6 +402,11 @@ func (g *cssSheetGen) prelude(kind string) []CSSTok {
 		for i := r.Intn(3); i > 0; i-- {
 			toks = append(toks, pt{t: Pick(r, []CSSTok{{"Ident", "foo"}, {"Number", "1"}, {"String", "'s'"}, {"Hash", "#h"}})})
 		}
+		if r.Intn(3) == 0 {
+			// a ';' inside a parenthesised group of the prelude is a component value of that group, not the end of the rule
+			// (written without whitespace around it: the statement does not say whether ';' counts as punctuation there)
+			toks = append(toks, pt{t: CSSTok{"LeftParenthesis", "("}, open: true}, pt{t: CSSTok{"Ident", "a"}}, pt{t: CSSTok{"Semicolon", ";"}, tight: true}, pt{t: CSSTok{"Ident", "b"}}, pt{t: CSSTok{"RightParenthesis", ")"}, close: true})
+		}
 	}
 	lead := false
 	for i, t := range toks {
@@ -413,6 +419,7 @@ func (g *cssSheetGen) prelude(kind string) []CSSTok {
 		} else {
 			p := toks[i-1]
 			switch {
+			case p.tight || t.tight:
 			case p.punct || t.punct:
 				g.optwsNoComment()
 			case p.open || t.close:
